@@ -781,9 +781,13 @@ func selftestDeterminism(ids []string) int {
 	}
 	scratch, bin := buildScratch(false)
 	defer cleanup(scratch)
-	n := 600
 	bad := 0
 	for _, id := range ids {
+		n := 600
+		if id == "C12" || id == "C13" {
+			// ~55 000 scheduler steps per run: full logs of 600 runs x 5 would not fit
+			n = 120
+		}
 		type key struct{ idx int }
 		ref := map[int]string{}
 		procs := 0
